@@ -262,6 +262,10 @@ func (t *State) verifySignatures(tx *pb.Transaction, digestHash []byte) (bool, m
 	for idx, authReq := range tx.AuthRequire {
 		splitRes := strings.Split(authReq, "/")
 		addr := splitRes[len(splitRes)-1]
+		if !t.isAccountPath(splitRes[:len(splitRes)-1]) {
+			t.log.Warn("verifySignatures failed, a key in the middle of an auth path signs nothing", "authRequire", authReq)
+			return false, nil, ErrInvalidSignature
+		}
 		signInfo := tx.AuthRequireSigns[idx]
 		if _, has := verifiedAddr[addr]; has {
 			continue
@@ -276,6 +280,19 @@ func (t *State) verifySignatures(tx *pb.Transaction, digestHash []byte) (bool, m
 	return true, verifiedAddr, nil
 }
 
+// isAccountPath reports whether every segment names an account. Only the LAST
+// segment of an AuthRequire entry is a signer whose signature is checked; the
+// permission tree counts every key it finds on the path, so a key anywhere else
+// on the path would count as a signer without having signed.
+func (t *State) isAccountPath(segments []string) bool {
+	for _, seg := range segments {
+		if aclu.IsAccount(seg) != 1 {
+			return false
+		}
+	}
+	return true
+}
+
 func (t *State) verifyXuperSign(tx *pb.Transaction, digestHash []byte) (bool, map[string]bool, error) {
 	uniqueAddrs := make(map[string]bool)
 	// get all addresses
@@ -285,6 +302,9 @@ func (t *State) verifyXuperSign(tx *pb.Transaction, digestHash []byte) (bool, ma
 	for _, authReq := range tx.AuthRequire {
 		splitRes := strings.Split(authReq, "/")
 		addr := splitRes[len(splitRes)-1]
+		if !t.isAccountPath(splitRes[:len(splitRes)-1]) {
+			return false, nil, errors.New("XuperSign: a key in the middle of an auth path signs nothing")
+		}
 		if uniqueAddrs[addr] {
 			continue
 		}
